@@ -7,6 +7,20 @@ ROOT = os.path.dirname(os.path.dirname(os.path.abspath(__file__)))
 
 # pid -> (technique, level text, level note, design ref)
 CLAIMED = {
+    "C13": (
+        "Lean 4 invariant proofs for the tokenizer's cursor/position arithmetic and highlight_sql + translator (delimiter tables, repair flags) + six-field token correspondence + position oracle on the real code",
+        "Proof (partial): Model/Lex.lean mirrors TokenizerCore (_scan, _advance incl. alnum batch and rewinds, _add, keyword/number/var/identifier/"
+        "string/comment scanners, _extract_string fast and slow path) and errors.highlight_sql. Properties/C13.lean proves for all inputs and "
+        "configurations that _advance keeps line = 1 + breaks-before and col = offset-in-line (single steps unconditionally, jumps/rewinds when no "
+        "CR/LF is skipped), that _add stamps tokens whose line/col agree with their end offset, that under the _scan phase discipline tokens are "
+        "strictly ordered, non-overlapping and inside the input, and that highlight_sql selects exactly s[a..b] with bounded contexts; per-dialect "
+        "delimiter facts are decided completely on tables regenerated every run. That lex's whole control flow follows the phase discipline and the "
+        "gap/coverage clause are NOT Lean theorems: they rest on exact model-vs-implementation correspondence (six token fields, ~6200 cases/run, "
+        "32 dialects) and on the search oracle, which alone covers ParseError/TokenError/meta positions.",
+        "Trusted: Lean kernel; hand-written Model/Lex.lean tied by sampled correspondence; CPython str.isspace/isalnum/isidentifier/upper shipped "
+        "per character on the protocol; behavioural probe of the three repair flags in the translator; the harness's reference line/col and gap parser.",
+        "DESIGN.md §4 C13",
+    ),
     "C18": (
         "Lean 4 refinement proof (cache-coherence invariant by induction over histories) + translator for the eviction policy + differential histories",
         "Proof: Model/Schema.lean mirrors MappingSchema.find/add_table/column_names/get_column_type/has_column, the trie lookup and the "
